@@ -121,67 +121,111 @@ func run(id string, c cfg, tier string, seed int64, replay string) int {
 
 	parts := make([]*hx.Part, shards)
 	problems := make([]string, shards)
+	// runShard runs shard i once; extra environment entries are appended; tag names its files.
+	runShard := func(i int, tag string, extra ...string) (*hx.Part, string) {
+		out := filepath.Join(partDir, fmt.Sprintf("part%d%s.json", i, tag))
+		os.Remove(out)
+		mem := c.MemKB
+		if mem == 0 {
+			mem = 6 << 20
+		}
+		if c.Race {
+			mem = 0 // the race runtime reserves a huge address space
+		}
+		sh := fmt.Sprintf("exec %q -test.run '^TestCheck$' -test.timeout %ds -test.count 1", bin, int(to.Seconds())+30)
+		if mem > 0 {
+			sh = fmt.Sprintf("ulimit -v %d; ", mem) + sh
+		}
+		p := exec.Command("bash", "-c", sh)
+		p.Dir = pkgDir
+		p.Env = append(os.Environ(),
+			"VERIF_TIER="+tier, "VERIF_SEED="+strconv.FormatInt(seed, 10),
+			"VERIF_SHARD="+strconv.Itoa(i), "VERIF_NSHARDS="+strconv.Itoa(shards),
+			"VERIF_OUT="+out, "VERIF_REPLAY="+replay, "VERIF_DIR="+root())
+		if c.Race {
+			p.Env = append(p.Env, "GORACE=log_path="+filepath.Join(partDir, fmt.Sprintf("race%d", i))+" halt_on_error=0")
+		}
+		p.Env = append(p.Env, extra...)
+		logPath := filepath.Join(partDir, fmt.Sprintf("log%d%s.txt", i, tag))
+		logf, _ := os.Create(logPath)
+		p.Stdout, p.Stderr = logf, logf
+		done := make(chan error, 1)
+		if err := p.Start(); err != nil {
+			return nil, "cannot start: " + err.Error()
+		}
+		go func() { done <- p.Wait() }()
+		var werr error
+		select {
+		case werr = <-done:
+		case <-time.After(to + 60*time.Second):
+			p.Process.Kill()
+			werr = fmt.Errorf("killed after %v", to)
+		}
+		logf.Close()
+		b, err := os.ReadFile(out)
+		if err != nil {
+			lg, _ := os.ReadFile(logPath)
+			tail := string(lg)
+			if len(tail) > 3000 {
+				// the runtime prints the reason of a fatal error first, the goroutine dump after it
+				tail = tail[:900] + "\n[...]\n" + tail[len(tail)-2000:]
+			}
+			return nil, fmt.Sprintf("shard %d produced no part file (%v); log:\n%s", i, werr, tail)
+		}
+		var pt hx.Part
+		if err := json.Unmarshal(b, &pt); err != nil || !pt.Done {
+			return nil, fmt.Sprintf("shard %d part unreadable: %v", i, err)
+		}
+		return &pt, ""
+	}
 	var wg sync.WaitGroup
 	for i := 0; i < shards; i++ {
 		wg.Add(1)
 		go func(i int) {
 			defer wg.Done()
-			out := filepath.Join(partDir, fmt.Sprintf("part%d.json", i))
-			mem := c.MemKB
-			if mem == 0 {
-				mem = 6 << 20
-			}
-			if c.Race {
-				mem = 0 // the race runtime reserves a huge address space
-			}
-			sh := fmt.Sprintf("exec %q -test.run '^TestCheck$' -test.timeout %ds -test.count 1", bin, int(to.Seconds())+30)
-			if mem > 0 {
-				sh = fmt.Sprintf("ulimit -v %d; ", mem) + sh
-			}
-			p := exec.Command("bash", "-c", sh)
-			p.Dir = pkgDir
-			p.Env = append(os.Environ(),
-				"VERIF_TIER="+tier, "VERIF_SEED="+strconv.FormatInt(seed, 10),
-				"VERIF_SHARD="+strconv.Itoa(i), "VERIF_NSHARDS="+strconv.Itoa(shards),
-				"VERIF_OUT="+out, "VERIF_REPLAY="+replay, "VERIF_DIR="+root())
-			if c.Race {
-				p.Env = append(p.Env, "GORACE=log_path="+filepath.Join(partDir, fmt.Sprintf("race%d", i))+" halt_on_error=0")
-			}
-			logf, _ := os.Create(filepath.Join(partDir, fmt.Sprintf("log%d.txt", i)))
-			p.Stdout, p.Stderr = logf, logf
-			done := make(chan error, 1)
-			if err := p.Start(); err != nil {
-				problems[i] = "cannot start: " + err.Error()
-				return
-			}
-			go func() { done <- p.Wait() }()
-			var werr error
-			select {
-			case werr = <-done:
-			case <-time.After(to + 60*time.Second):
-				p.Process.Kill()
-				werr = fmt.Errorf("killed after %v", to)
-			}
-			logf.Close()
-			b, err := os.ReadFile(out)
-			if err != nil {
-				lg, _ := os.ReadFile(filepath.Join(partDir, fmt.Sprintf("log%d.txt", i)))
-				tail := string(lg)
-				if len(tail) > 3000 {
-					tail = tail[len(tail)-3000:]
-				}
-				problems[i] = fmt.Sprintf("shard %d produced no part file (%v); log tail:\n%s", i, werr, tail)
-				return
-			}
-			var pt hx.Part
-			if err := json.Unmarshal(b, &pt); err != nil || !pt.Done {
-				problems[i] = fmt.Sprintf("shard %d part unreadable: %v", i, err)
-				return
-			}
-			parts[i] = &pt
+			parts[i], problems[i] = runShard(i, "")
 		}(i)
 	}
 	wg.Wait()
+
+	// A shard that died (fatal runtime error in the code under test: stack overflow, out of memory,
+	// concurrent map write) is run again with a case journal; the case in flight at the second death
+	// is replayed alone, and only if the process dies on it again is it reported as a violation.
+	var crashViol []hx.Violation
+	for i := range parts {
+		if parts[i] != nil || !strings.Contains(problems[i], "produced no part file") || strings.Contains(problems[i], "killed after") {
+			continue
+		}
+		fatal := fatalLine(problems[i])
+		journal := filepath.Join(partDir, fmt.Sprintf("journal%d.json", i))
+		os.Remove(journal)
+		pt, prob := runShard(i, "-journal", "VERIF_JOURNAL="+journal)
+		if pt != nil {
+			parts[i], problems[i] = pt, "" // not reproduced: the second run completed
+			continue
+		}
+		if f := fatalLine(prob); f != "" {
+			fatal = f
+		}
+		jb, err := os.ReadFile(journal)
+		var jc struct {
+			Kind string          `json:"kind"`
+			Case json.RawMessage `json:"case"`
+		}
+		if err != nil || json.Unmarshal(jb, &jc) != nil || jc.Kind == "" {
+			continue // stays inconclusive
+		}
+		rp := filepath.Join(root(), "replays", id, fmt.Sprintf("crash-%s-seed%d-shard%d.json", tier, seed, i))
+		os.MkdirAll(filepath.Dir(rp), 0o755)
+		rb, _ := json.MarshalIndent(map[string]any{"property": id, "kind": jc.Kind, "sub": "process_crash", "seed": seed, "tier": tier,
+			"error": "the process evaluating this case died: " + fatal, "case": jc.Case}, "", " ")
+		os.WriteFile(rp, rb, 0o644)
+		if crashConfirmed(bin, pkgDir, partDir, rp, c.Race) {
+			crashViol = append(crashViol, hx.Violation{Sub: "process_crash", Kind: jc.Kind, Replay: rp,
+				Msg: "the process evaluating this case died (not a recoverable panic): " + fatal})
+			problems[i] = "shard " + strconv.Itoa(i) + " died on the case saved as " + rp + " (reported as a violation); the rest of that shard's work was not done"
+		}
+	}
 
 	// optional native fuzz campaigns (thorough only)
 	fuzzRes := map[string]any{}
@@ -282,6 +326,7 @@ func run(id string, c cfg, tier string, seed int64, replay string) int {
 		}
 	}
 	viols = append(viols, fuzzViol...)
+	viols = append(viols, crashViol...)
 	inconcl = append(inconcl, inconclFuzz...)
 	if c.Race {
 		// data race reports written by the race runtime: each shard's first report becomes a violation
@@ -439,6 +484,44 @@ func run(id string, c cfg, tier string, seed int64, replay string) int {
 		return 2
 	}
 	return 0
+}
+
+// fatalLine extracts the runtime's own description of a process death from a log tail.
+func fatalLine(s string) string {
+	for _, l := range strings.Split(s, "\n") {
+		t := strings.TrimSpace(l)
+		if strings.HasPrefix(t, "fatal error:") || strings.HasPrefix(t, "runtime: goroutine stack exceeds") || strings.HasPrefix(t, "runtime: out of memory") || strings.Contains(t, "signal SIG") {
+			return t
+		}
+	}
+	return ""
+}
+
+// crashConfirmed replays one case alone: true if the process dies again without writing its part.
+func crashConfirmed(bin, pkgDir, partDir, replay string, race bool) bool {
+	out := filepath.Join(partDir, "crashcheck.json")
+	os.Remove(out)
+	sh := fmt.Sprintf("exec %q -test.run '^TestCheck$' -test.timeout 400s -test.count 1", bin)
+	if !race {
+		sh = fmt.Sprintf("ulimit -v %d; ", 6<<20) + sh
+	}
+	p := exec.Command("bash", "-c", sh)
+	p.Dir = pkgDir
+	p.Env = append(os.Environ(), "VERIF_TIER=quick", "VERIF_SHARD=0", "VERIF_NSHARDS=1", "VERIF_OUT="+out,
+		"VERIF_REPLAY="+replay, "VERIF_DIR="+root())
+	done := make(chan error, 1)
+	if err := p.Start(); err != nil {
+		return false
+	}
+	go func() { done <- p.Wait() }()
+	select {
+	case <-done:
+	case <-time.After(420 * time.Second):
+		p.Process.Kill()
+		return false // a hang, not a crash: left to the watchdog path
+	}
+	_, err := os.ReadFile(out)
+	return err != nil
 }
 
 // confirmHang replays one suspected hang alone with a 120 s watchdog.
